@@ -74,7 +74,7 @@ impl Prop for C14 {
         "C14"
     }
     fn rule(&self) -> String {
-        "cases = chains of 1-4 completion units answered to COM_QUERY (text) or COM_STMT_EXECUTE (binary): (rows, last_insert_id) pairs from B x B with B = {0, 1, 250..254, 65535, 65536, 2^24-1, 2^24, 2^32-1, 2^32, 2^63, 2^64-2, 2^64-1} (enumerated) and random u64 pairs, via completed or complete_one chains; zero-column resultsets with n in {0, 1, 2, 250, 251, 300, 70000} rows ended by end_row / write_row mixes, and with n+1 rows for n in {65535, 65536, 2^24-1, 2^24, 2^32-2, 2^32+4 (thorough: also 2^31-1, 2^31, 2^32-1, 2^33+1)} ended by end_row() in a loop. Oracle: the decoded OK (own decoder + mysql_common's OkPacket parser) carries exactly those two numbers; a zero-column set's OK carries affected-rows = number of rows the program ended. Non-trivial = a value >= 251 (beyond the 1-byte length encoding), a chain of >= 2, or a zero-column set with rows.".into()
+        "cases = chains of 1-4 completion units answered to COM_QUERY (text) or COM_STMT_EXECUTE (binary): (rows, last_insert_id) pairs from B x B with B = {0, 1, 250..254, 65535, 65536, 2^24-1, 2^24, 2^32-1, 2^32, 2^63, 2^64-2, 2^64-1} (enumerated) and random u64 pairs, via completed or complete_one chains (enumerated: chains of 255, 256, 257 units); zero-column resultsets with n in {0, 1, 2, 250, 251, 300, 70000} rows ended by end_row / write_row mixes, and with n+1 rows for n in {65535, 65536, 2^24-1, 2^24, 2^32-2, 2^32+4 (thorough: also 2^31-1, 2^31, 2^32-1, 2^33+1)} ended by end_row() in a loop. Oracle: the decoded OK (own decoder + mysql_common's OkPacket parser) carries exactly those two numbers; a zero-column set's OK carries affected-rows = number of rows the program ended. Non-trivial = a value >= 251 (beyond the 1-byte length encoding), a chain of >= 2, or a zero-column set with rows.".into()
     }
     fn exhaustive_note(&self, _tier: Tier) -> Option<String> {
         Some("B x B for single completions in text and binary mode".into())
@@ -138,6 +138,18 @@ impl Prop for C14 {
                 });
             }
         }
+        // chains whose packet count crosses 2^8: every completion of a chain of 255-257 (thorough:
+        // also 511-513) units must still arrive with its own numbers, and the next command's OK too
+        let chains: &[usize] = match tier {
+            Tier::Quick => &[255, 256, 257],
+            Tier::Thorough => &[255, 256, 257, 511, 512, 513, 1024],
+        };
+        for &n in chains {
+            for bin in [false, true] {
+                let units: Vec<Unit14> = (0..n).map(|k| if k % 5 == 4 { Unit14::ZeroCols { forms: vec![RowForm::WriteRow; k % 3], n_extra_write_row: 0 } } else { Unit14::Count { rows: B[k % B.len()], id: (k as u64) * 7 } }).collect();
+                v.push(Case { units, bin, direct_terminal: n % 2 == 0 });
+            }
+        }
         // "for all numbers of rows written to a zero-column resultset": the counts at which 16-,
         // 24- and 32-bit counters wrap (ending such a row sends nothing, so billions are cheap)
         let bulk: &[u64] = match tier {
@@ -198,6 +210,15 @@ impl Prop for C14 {
         if let Err(m) = check_reply(&exps[idx], &d.replies[idx], true) {
             ex.fail("c14-count-differs", m);
             return ex;
+        }
+        // the sentinel PING behind the command must get its own OK: a completion packet too many or
+        // too few shifts it
+        if d.stray_msgs != 0 || d.trailing_bytes != 0 {
+            ex.fail("c14-count-differs", format!("{} stray packets behind the completions: the next command's reply is not the one meant for it", d.stray_msgs));
+            return ex;
+        }
+        if case.units.len() >= 255 {
+            ex.class("chain>=255-units");
         }
         // second opinion on every OK packet of the reply
         let r = &d.replies[idx];
